@@ -1730,6 +1730,7 @@ func ruleFillBytes(c *Ctx, r *Rep) {
 			sized := false
 			if ok {
 				var leaf *ssa.Call
+				var leafOf ssa.Value
 				var find func(v ssa.Value, bind map[*ssa.Parameter]ssa.Value, d int)
 				find = func(v ssa.Value, bind map[*ssa.Parameter]ssa.Value, d int) {
 					if d > 8 || v == nil {
@@ -1748,6 +1749,12 @@ func ruleFillBytes(c *Ctx, r *Rep) {
 					case *ssa.Call:
 						if calleeFullName(x) == "(*math/big.Int).BitLen" {
 							leaf = x
+							leafOf = x.Call.Args[0]
+							if prm, isP := leafOf.(*ssa.Parameter); isP {
+								if a, ok := bind[prm]; ok {
+									leafOf = a // inside a helper: the number is what the caller handed in
+								}
+							}
 							return
 						}
 						if g := x.Call.StaticCallee(); g != nil && c.InModule(g) && len(g.Blocks) == 1 {
@@ -1769,7 +1776,7 @@ func ruleFillBytes(c *Ctx, r *Rep) {
 				}
 				find(ms.Len, nil, 0)
 				if leaf != nil {
-					o := strings.Join(pv.Origins(leaf.Call.Args[0]), ",")
+					o := strings.Join(pv.Origins(leafOf), ",")
 					if strings.HasSuffix(o, ".N") {
 						sized = true
 						for x := int64(0); x <= 1100 && sized; x++ {
@@ -1862,6 +1869,14 @@ func ruleFillBytes(c *Ctx, r *Rep) {
 							if k, isK := ia.Index.(*ssa.Const); isK && k.Int64() == 0 {
 								cause = "padding byte"
 							}
+						}
+					}
+				}
+				if cause == "" {
+					// a refinement of the message inside the region where decoding already failed
+					for _, g := range gs {
+						if x, isNil, ok := nilTestOf(g.Cond, g.Truth); ok && isErrorType(x.Type()) && !isNil {
+							cause = "an error handed on"
 						}
 					}
 				}
